@@ -239,6 +239,10 @@ func init() {
 			p.ruleA3(c, pointKinds(kinds), false, true)
 			p.ruleCircleConvention(c)
 			p.ruleCircleConstructor(c)
+			p.ruleGeoCallers(c)
+			p.ruleCircleApproximation(c)
+			p.ruleGeoAlgebra(c)
+			p.ruleGeoUnits(c, map[string]bool{"Haversine": true, "DistanceToHaversine": true, "NormalizeDistance": true, "DestinationPoint": true}, false)
 			p.ruleFloatFormat(c)
 		},
 	})
@@ -247,7 +251,17 @@ func init() {
 		Explanation: "Decides only the clause 'the rectangle lies within the world bounds and widens to the full longitude range at a pole / across the antimeridian', as a clamp typestate on RectFromCenter's SSA: at the degree conversion minLat >= -pi/2, maxLat <= pi/2, minLon >= -pi, maxLon <= pi hold on every path (each bound is an in-range constant or passed the not-taken edge of the matching out-of-range test), and every join that clamps a latitude also assigns both longitude bounds to ∓pi. Assumes non-NaN intermediate values. NOT decided: coverage of the disc, the tangent-longitude formula, the tiny-radius guard, NaN freedom.",
 		Run: func(p *Program, c *Check) {
 			p.ruleClamp(c)
+			p.ruleGeoUnits(c, map[string]bool{"RectFromCenter": true, "DestinationPoint": true}, true)
 			c.Assume("intermediate values are not NaN (comparisons with NaN are false and would skip the clamps)")
+		},
+	})
+	register(&PropertyDef{
+		ID: "C15", Level: "other",
+		Explanation: "Decides, on the formulas in the source (no execution, real arithmetic): (E14.units) every function of the spherical API is dimensionally consistent with its stated units — trigonometric functions receive radians, inverse trigonometric functions pure numbers, sums and comparisons join equal units, results are returned in the stated unit — and never lets a latitude meet a longitude; (E14.range) for all inputs in the stated ranges the distance lies in [0, half circumference], the destination latitude in [-90,90] and longitude in [-180,180], the bearing in [0,360] (interval analysis with the exact ranges of asin/atan2 and Go's sign-preserving Mod); (E14.algebra) identities between the primitives, by normal forms of their terms: metres<->haversine are mutually inverse, the haversine is symmetric, zero on identical locations and equals sin² of half the central angle along a meridian and along the equator, DistanceTo is DistanceFromHaversine of Haversine, NormalizeDistance is idempotent and its modulus is a period of DistanceToHaversine, the semicircle scale factors are reciprocal, travelling zero metres keeps the latitude. NOT decided: every numerical clause (tolerances, conditioning of the bearing, behaviour at the poles and the antipode, rounding), the general inverse relation between DestinationPoint, DistanceTo and BearingTo, strict monotonicity beyond the shape sin²(k·d).",
+		Run: func(p *Program, c *Check) {
+			p.ruleGeoUnits(c, nil, true)
+			p.ruleGeoAlgebra(c)
+			p.ruleGeoCallers(c)
 		},
 	})
 	register(&PropertyDef{
